@@ -84,7 +84,9 @@ def make_serializer(kind, cfg, impl):
             return IdAutoSep(sep, limit, ascii_only=(name == b"autosep-ascii"))
         if name == b"line":
             from easynetwork.serializers.line import StringLineSerializer
-            return StringLineSerializer(NEWLINES[sep], encoding=impl[1].decode(), limit=limit, keep_end=keep_end)
+            errors = impl[2].decode() if len(impl) > 2 else "strict"     # [b"line", encoding, unicode_errors]
+            return StringLineSerializer(NEWLINES[sep], encoding=impl[1].decode(), unicode_errors=errors, limit=limit,
+                                        keep_end=keep_end)
         if name == b"b64":
             from easynetwork.serializers.wrapper.base64 import Base64EncoderSerializer
             assert not keep_end
@@ -215,7 +217,42 @@ def run_buffered(serializer, sizehint, chunks, converter=None):
     return _canon_rounds(rounds)
 
 
+_TIMEOUTS = [0]
+
+
 def run_impl(inp):
+    """every run is bounded by a watchdog: a receive path that spins (e.g. inside an exception constructor) yields the
+    event [8] (never produced by the model) instead of hanging the check"""
+    import contextlib
+    import faulthandler
+    import signal
+
+    class _Timeout(BaseException):
+        pass
+
+    def _on_alarm(_sig, _frm):
+        raise _Timeout()
+
+    # after a few expiries the receive path is known to spin: later cases get a short leash, and after ten the
+    # remaining cases are answered with the hang event at once, so that the run still ends with a verdict
+    if _TIMEOUTS[0] >= 10:
+        return [[0, [[8]], b""]]
+    seconds = (20 if _TIMEOUTS[0] < 3 else 2) + sum(len(c) for c in inp[3]) // 2000
+    old = signal.signal(signal.SIGALRM, _on_alarm)
+    signal.setitimer(signal.ITIMER_REAL, seconds)
+    faulthandler.dump_traceback_later(seconds * 6, exit=True)
+    try:
+        return _run_impl(inp)
+    except _Timeout:
+        _TIMEOUTS[0] += 1
+        return [[0, [[8]], b""]]
+    finally:
+        signal.setitimer(signal.ITIMER_REAL, 0)
+        faulthandler.cancel_dump_traceback_later()
+        signal.signal(signal.SIGALRM, old)
+
+
+def _run_impl(inp):
     kind, cfg, _dec, chunks, impl = inp[:5]
     if kind in (11, 12):        # kinds 0 / 1 with a converter in the protocol
         ser = make_serializer(kind - 11, cfg, impl)
@@ -288,6 +325,17 @@ def cuts_to_chunks(s: bytes, cuts):
         start = c
     out.append(s[start:])
     return [c for c in out if c]
+
+
+def abnormal(rounds):
+    """a hang (event 8) or an exception class the receive path must never let out (event 9)"""
+    for r in rounds:
+        for e in r[1]:
+            if e and e[0] == 8:
+                return "the receive path did not come back (watchdog expired)"
+            if e and e[0] == 9:
+                return f"the receive path raised {bytes(e[1]).decode(errors='replace')}"
+    return None
 
 
 def spec_events_py(kind, cfg, impl, stream: bytes):
